@@ -37,6 +37,23 @@ def sources(ctx, prefix='C20'):
     from . import c07, c09
     ctx.rule(f'{prefix}.BLOCKSOURCE', lambda: c07.rule_flushnotify(ctx), 4)
     ctx.rule(f'{prefix}.MEMPOOLSOURCE', lambda: c09.rule_refresh_handover(ctx, f'{prefix}.MEMPOOLSOURCE'), 3)
+    ctx.rule(f'{prefix}.HEIGHTQUERY', lambda: rule_height_query(ctx, f'{prefix}.HEIGHTQUERY'), 1)
+
+
+def rule_height_query(ctx, rule):
+    '''The mempool tracker brackets its listing between cached_height() and `await height()`; the bracket means something
+    only if height() asks the daemon every time.  A height() that answers from a cache makes the second reading equal the
+    first by construction.'''
+    f = ctx.func('daemon', 'Daemon.height')
+    cfg = ctx.cfg(f)
+    qs = [q.stmt(c) for c in q.own_calls(f) if q.callee_name(ctx, f, c) == 'self._send_single']
+    p = pr.path_avoiding(cfg, [cfg.entry], [cfg.exit], {cfg.node(s_) for s_ in qs}) if qs else [0]
+    ctx.check(bool(qs) and p is None, rule, ctx.key(f, None, 'asks the daemon on every call'),
+              'every call of Daemon.height() sends a request to the daemon',
+              'Daemon.height() can return without asking the daemon (a cached value): the mempool tracker\'s "height unchanged across the '
+              'listing" test compares the cache with itself, and a listing taken across a new block is reported under the old height',
+              witness=cfg.describe_path(p) if (p and qs) else None, loc=ctx.loc(f, f.node))
+    return 1
 
 
 def _run(ctx):
@@ -258,6 +275,19 @@ def _run(ctx):
                 ctx.check(okc and len(swept) == 1, 'C20.SWEEP', ctx.key(mn, loop),
                           f'all entries of {cont} at heights <= the notified height are merged into the notification',
                           f'the sweep over {cont} does not cover exactly the heights <= the notified height', loc=ctx.loc(mn, loop))
+    # any other loop that pops from a pending container by its loop variable is a sweep of another spelling: it must look at
+    # EVERY key (heights are not in ascending insertion order once they go down after a reorganisation)
+    for loop in [s for s in mn.own_nodes() if isinstance(s, ast.For)]:
+        it = loop.iter
+        if isinstance(it, ast.ListComp) and len(it.generators) == 1 and cpath(it.generators[0].iter) in PENDING:
+            continue
+        popped = [c for c in walk_own(loop) if isinstance(c, ast.Call) and isinstance(c.func, ast.Attribute) and c.func.attr == 'pop'
+                  and cpath(c.func.value) in PENDING and c.args and norm(c.args[0]) == norm(loop.target)]
+        if popped:
+            n_s += 1
+            ctx.bad('C20.SWEEP', ctx.key(mn, loop), f'the sweep iterates `{norm(it)[:70]}`: it does not examine every pending height (a prefix / '
+                    'ordered walk stops at the first greater key), so a set pending at a lower height behind a higher key is neither merged '
+                    'nor removed once heights have gone down', loc=ctx.loc(mn, loop))
     ctx.floor('C20.SWEEP', 2, n_s)
 
     # ------------------------------------------------------------------ RECORD
@@ -311,4 +341,22 @@ def _run(ctx):
     ctx.check(len(marks) == 1 and norm(marks[0].value) == st.params[1], 'C20.RECORD', ctx.key(st, None, 'start-up height'),
               'start-up records its height as the highest block', 'start-up does not record its height as the highest block',
               loc=ctx.loc(st, st.node))
-    ctx.floor('C20.RECORD', 5, n_r + 1)
+    stcfg = ctx.cfg(st)
+    inst = [s_ for s_ in q.assigns(ctx, st, 'self.notify')]
+    from ..suspend import Suspension
+    sus_ = Suspension(ctx)
+    early = []
+    if inst:
+        inn = {stcfg.node(s_) for s_ in inst}
+        for m_ in stcfg.g.nodes:
+            a_ = stcfg.ast(m_)
+            if a_ is None or m_ in inn or stcfg.kind(m_) in ('with_exit', 'finally'):
+                continue
+            if isinstance(a_, ast.stmt) and any(isinstance(x, ast.Await) for x in ast.walk(a_)) and \
+                    pr.path_avoiding(stcfg, [stcfg.entry], [m_], inn) is not None:
+                early.append(f'line {a_.lineno} `{norm(a_)[:50]}`')
+    ctx.check(bool(inst) and not early, 'C20.RECORD', ctx.key(st, None, 'callback installed before the first suspension'),
+              'start() installs the notify callback before it awaits anything',
+              f'start() awaits ({"; ".join(early)}) before the callback is installed: sets that become due while it is suspended are handed to '
+              'the default no-op notify and lost', loc=ctx.loc(st, st.node))
+    ctx.floor('C20.RECORD', 5, n_r + 2)
